@@ -272,6 +272,10 @@ func c10(r *ev.Result, tier string) {
 	/* The last seam: from the operator channel to the terminal, through
 	the real Shell. */
 	runTermSeam(r, "c10", 0, "c10term")
+	/* The operator's terminal: colour-less ones too. */
+	for _, env := range [][]string{{"TERM=dumb"}, {"TERM"}, {"NO_COLOR=1", "TERM=xterm-256color"}} {
+		runTermSeamEnv(r, "c10", 0, "c10term", env)
+	}
 	r.Sample(6, c10Case{Position: "file-path", Text: "%20%25s"})
 	r.Sample(6, c10Case{Position: "c2-param", Text: "%25s%25d"})
 	r.Sample(6, c10Case{Position: "input-id-refused", Text: "%25!"})
